@@ -84,6 +84,48 @@ class Run:
     pass
 
 
+def build_real(config, comps, out_len, strategy, max_evaluations, tol=0.0, observer=None, **kw):
+    """same objects, but the library's own estimator and a real integrand drive the refinement"""
+    from sparseSpACE.spatiallyAdaptiveExtendSplit import SpatiallyAdaptiveExtendScheme
+    from sparseSpACE.spatiallyAdaptiveCell import SpatiallyAdaptiveCellScheme
+    from sparseSpACE.GridOperation import Integration
+    from sparseSpACE.Grid import TrapezoidalGrid
+    from sparseSpACE.Function import CustomFunction
+    from sparseSpACE.ErrorCalculator import ErrorCalculatorExtendSplit, ErrorCalculatorSurplusCell
+    d = config["d"]
+    a = np.array(config.get("a", [0.0] * d), dtype=float)
+    b = np.array(config.get("b", [1.0] * d), dtype=float)
+    grid = TrapezoidalGrid(a, b, boundary=config.get("boundary", True))
+    f = CustomFunction(comps, output_length=out_len)
+    op = Integration(f, grid=grid, dim=d, reference_solution=config.get("reference"))
+    if strategy == "es":
+        sa = SpatiallyAdaptiveExtendScheme(a, b, number_of_refinements_before_extend=config.get("nref", 1),
+                                           version=config.get("version", 0),
+                                           automatic_extend_split=config.get("automatic", False),
+                                           split_single_dim=config.get("single_dim", False), operation=op,
+                                           norm=config.get("norm", np.inf))
+        eo = ErrorCalculatorExtendSplit()
+    else:
+        sa = SpatiallyAdaptiveCellScheme(a, b, operation=op, norm=config.get("norm", np.inf))
+        eo = ErrorCalculatorSurplusCell()
+    sa.log_util.set_print_level(LV)
+    sa.log_util.set_log_level(LV)
+    r = Run()
+    r.sa, r.op, r.eo, r.config, r.trace = sa, op, eo, config, []
+    orig_eval = sa.evaluate_operation
+
+    def eval_wrapper():
+        out = orig_eval()
+        r.trace.append(np.array(op.get_result(), dtype=float).copy())
+        if observer is not None:
+            observer(r)
+        return out
+    sa.evaluate_operation = eval_wrapper
+    r.result = sa.performSpatiallyAdaptiv(config["lmin"], config["lmax"], eo, tol=tol, max_evaluations=max_evaluations,
+                                          print_output=False, **kw)
+    return r
+
+
 def build(config, history, comps, out_len, strategy="es", tol=0.5):
     from sparseSpACE.spatiallyAdaptiveExtendSplit import SpatiallyAdaptiveExtendScheme
     from sparseSpACE.spatiallyAdaptiveCell import SpatiallyAdaptiveCellScheme
